@@ -205,6 +205,45 @@ def setup():
   gin.register(KM2.meth)
   gin.register(KM2)
 
+  # one wraps-decorated method made configurable in BOTH shapes -- the function found on the class (the caller passes
+  # the receiver) and the bound method of an instance (the receiver is supplied) -- in either order; the shape that
+  # came second is the one enumerated (anything remembered per underlying function would show there)
+  for order in ('fn_first', 'bound_first'):
+    kname = 'KB_' + order
+    exec('class %s:\n'
+         '  def step(recv, a, b="db", *, k="dk"):\n    REC.append(dict(recv=recv, a=a, b=b, k=k))\n    return "ret"\n'
+         % kname, ns)
+    KB = ns[kname]
+    KB.__module__ = 'c01probes'
+    KB.step.__module__ = 'c01probes'
+    KB.step = user_deco(KB.step)
+    inst = KB()
+    bound_m = inst.step
+
+    def reg_fn():
+      w = gin.external_configurable(KB.step, name=kname + '_fn', module='c01probes')
+      w('r', 'a', 'b', k='k')
+      return w
+
+    def reg_bound():
+      w = gin.external_configurable(bound_m, name=kname + '_bound', module='c01probes')
+      w('a', 'b', k='k')
+      return w
+    if order == 'fn_first':
+      reg_fn()
+      w = reg_bound()
+      sh = Shape('bound_deco_method', "a, b='db', *, k='dk'", ['a', 'b'], {'b': 'db', 'k': 'dk'}, ['k'], False, False,
+                 'a', 'k', 'fn')
+      sh.cname, sh.reg, sh.call, sh.orig = kname + '_bound', 'external', w, bound_m
+    else:
+      reg_bound()
+      w = reg_fn()
+      sh = Shape('fn_deco_method', "recv, a, b='db', *, k='dk'", ['recv', 'a', 'b'], {'b': 'db', 'k': 'dk'}, ['k'], False,
+                 False, 'a', 'k', 'fn')
+      sh.cname, sh.reg, sh.call, sh.orig = kname + '_fn', 'external', w, KB.step
+    SHAPES[sh.cname] = sh
+  del REC[:]
+
   @gin.configurable(module='c01probes')
   def consumer(fn=None):
     return fn
